@@ -2,6 +2,9 @@ package symgo
 
 import (
 	"fmt"
+	"go/types"
+	"os"
+	"runtime/debug"
 	"strings"
 
 	"golang.org/x/tools/go/ssa"
@@ -58,6 +61,9 @@ func (in *Interp) threadMain(t *Thread, body func()) {
 				pe, ok := r.(pathEnd)
 				if !ok {
 					// engine fault: report as unsupported so the obligation is inconclusive
+					if os.Getenv("VERIF_DEBUG") != "" {
+						fmt.Fprintf(os.Stderr, "engine panic: %v\n%s\n", r, debug.Stack())
+					}
 					pe = pathEnd{"unsupported", fmt.Sprintf("engine panic: %v", r)}
 				}
 				end = &pe
@@ -335,6 +341,25 @@ func (in *Interp) installConcStubs() {
 		in.call(f.fn, nil, f.binds)
 		return nil
 	}
+	// sync.Pool: no pooling, Get always calls New
+	S["(*sync.Pool).Get"] = func(in *Interp, fn *ssa.Function, a []Value) Value {
+		l := a[0].(PtrV).loc
+		st := fn.Signature.Recv().Type().(*types.Pointer).Elem().Underlying().(*types.Struct)
+		for i := 0; i < st.NumFields(); i++ {
+			if st.Field(i).Name() == "New" {
+				f, ok := l.sub[i].get().(FuncV)
+				if !ok || (f.fn == nil && f.native == nil) {
+					return IfaceV{}
+				}
+				if f.native != nil {
+					return f.native(in, nil)
+				}
+				return in.call(f.fn, nil, f.binds)
+			}
+		}
+		return IfaceV{}
+	}
+	S["(*sync.Pool).Put"] = func(in *Interp, fn *ssa.Function, a []Value) Value { return nil }
 	ld := func(in *Interp, fn *ssa.Function, a []Value) Value { return a[0].(PtrV).loc.get() }
 	st := func(in *Interp, fn *ssa.Function, a []Value) Value { a[0].(PtrV).loc.set(a[1]); return nil }
 	for _, k := range []string{"Uint32", "Uint64", "Int32", "Int64"} {
@@ -349,5 +374,5 @@ func (in *Interp) installConcStubs() {
 }
 
 func isNoopPkg(path string) bool {
-	return strings.HasPrefix(path, "github.com/rs/zerolog") || path == "time" || path == "log"
+	return strings.HasPrefix(path, "github.com/rs/zerolog") || strings.HasPrefix(path, "github.com/blevesearch/") || path == "time" || path == "log"
 }
